@@ -75,9 +75,26 @@ def load_jobs(prop_id):
         reg = json.load(f)
     jobs = []
     defaults = reg.get("defaults", {})
-    for j in reg["jobs"]:
-        base = dict(defaults)
+    alljobs = list(reg.get("jobs", []))
+    # fragments: obligations/Cxx.d/*.json (same format; jobs, assumptions, not_covered appended)
+    import glob
+    for frag in sorted(glob.glob(os.path.join(VERIF, "obligations", prop_id + ".d", "*.json"))):
+        with open(frag) as f:
+            fr = json.load(f)
+        fd = dict(defaults)
+        fd.update(fr.get("defaults", {}))
+        for j in fr.get("jobs", []):
+            jj = dict(fd)
+            jj.update(j)
+            jj["_nodefaults"] = True
+            alljobs.append(jj)
+        for key in ("assumptions", "not_covered", "trusted_base"):
+            reg.setdefault(key, [])
+            reg[key] = list(reg[key]) + list(fr.get(key, []))
+    for j in alljobs:
+        base = dict(defaults) if not j.get("_nodefaults") else {}
         base.update(j)
+        base.pop("_nodefaults", None)
         if "foreach" in base:
             rows = base.pop("foreach")
             for row in rows:
@@ -607,12 +624,17 @@ def main():
             print("UNDECIDED property=%s job=%s: %s" % (prop_id, r.name, r.reason[:1200]))
 
         if args.update_ledger:
-            for r in results:
-                if r.status in ("ok", "known"):
-                    ledger[r.name] = {"n": len(r.props), "kinds": kinds_count(r.props), "s": round(r.total_s, 1)}
+            import fcntl
             os.makedirs(os.path.dirname(ledger_path), exist_ok=True)
-            with open(ledger_path, "w") as f:
-                json.dump(ledger, f, indent=1, sort_keys=True)
+            with open(ledger_path + ".lock", "w") as lk:
+                fcntl.flock(lk, fcntl.LOCK_EX)
+                if os.path.exists(ledger_path):
+                    ledger = json.load(open(ledger_path))
+                for r in results:
+                    if r.status in ("ok", "known"):
+                        ledger[r.name] = {"n": len(r.props), "kinds": kinds_count(r.props), "s": round(r.total_s, 1)}
+                with open(ledger_path, "w") as f:
+                    json.dump(ledger, f, indent=1, sort_keys=True)
             print("ledger updated: %s (%d jobs)" % (ledger_path, len(ledger)))
 
         # evidence
